@@ -60,6 +60,9 @@ def axioms_for(eng, fname, v, args):
             ax.append(z3.Implies(x < y, v < v2))
             ax.append(z3.Implies(x > y, v > v2))
             ax.append(z3.Implies(x == -y, v == -v2))
+        # atan(tan y) = y on the principal branch
+        for v2, (y,) in _others(eng, 'tan', v):
+            ax.append(z3.Implies(z3.And(x == v2, y > -PI_LO / 2, y < PI_LO / 2), v == y))
     elif fname == 'tan':
         x, = args
         ax.append(z3.Implies(x == 0, v == 0))
@@ -74,9 +77,9 @@ def axioms_for(eng, fname, v, args):
         for s, (ys,) in sins:
             for c, (yc,) in coss:
                 ax.append(z3.Implies(z3.And(x == ys, x == yc), v * c == s))
-        # atan(tan x) = x on the principal branch
+        # tan(atan y) = y
         for v2, (y,) in _others(eng, 'atan', v):
-            ax.append(z3.Implies(z3.And(y == v, x > -PI_LO / 2, x < PI_LO / 2), v2 == x))
+            ax.append(z3.Implies(x == v2, v == y))
     elif fname == 'atan2':
         y, x = args
         ax += [v >= -PI_HI, v <= PI_HI]
